@@ -55,7 +55,11 @@ Fixpoint pv_eqb (a b : pv) {struct a} : bool :=
   | _, _ => false
   end.
 Definition regcls_eqb (a b : regcls) : bool :=
-  match a, b with RcJws, RcJws | Rc7797, Rc7797 | RcJwe, RcJwe => true | _, _ => false end.
+  match a, b with
+  | RcJws, RcJws | Rc7797, Rc7797 | RcJwe, RcJwe
+  | RcJwsSub, RcJwsSub | Rc7797Sub, Rc7797Sub | RcJweSub, RcJweSub => true
+  | _, _ => false
+  end.
 Definition regobj_eqb (a b : regobj) : bool :=
   regcls_eqb (ro_cls a) (ro_cls b) && pv_eqb (ro_allowed a) (ro_allowed b) &&
   Bool.eqb (ro_strict a) (ro_strict b) && Bool.eqb (ro_verify_all a) (ro_verify_all b) &&
